@@ -424,6 +424,7 @@ func newHubWorld(cfg HubCfg, shape Shape, seed int64) (*hubWorld, error) {
 		w.Cfg.CRLFiles = []string{h.uFile}
 	}
 	h.hooks = world.NewHooks()
+	h.hooks.LogOn = true // the hook events of every walk are checked against CrlRepo.tla (hooktrace.go)
 	h.hooks.Install()
 	h.hooks.BlockForced()
 	w.Hooks = h.hooks
@@ -640,6 +641,11 @@ func runHubWalk(c *vk.Ctx, cfg HubCfg, walk []*graph.Edge, shape Shape, seed int
 		c.Infra("hub world: %v", err)
 	}
 	defer h.destroy()
+	defer func() {
+		if !h.poisoned {
+			hookStats.add(c, cfg.Disk, h.hooks.Events(), func() string { return cfg.String() })
+		}
+	}()
 	var hist []hubStep
 	done := 0
 	for _, e := range walk {
